@@ -172,6 +172,28 @@ func init() {
 					} else {
 						res = append(res, errInfo(validateDoc(root, string(append([]byte(nil), b...)))))
 					}
+				case "exampleagain": // Example(); Example() of another schema; Example() again: must be identical and still valid
+					b1, err := root.Example()
+					if err != nil {
+						res = append(res, "NOEX-"+errInfo(err))
+						break
+					}
+					c1 := append([]byte(nil), b1...)
+					other := js.New("other", "{\n  \"address\": {\n    \"street\": \"x\",\n    \"no\": [1, 2, 3]\n  },\n  \"flag\": false\n}")
+					_, _ = other.Example()
+					b2, err := root.Example()
+					if err != nil {
+						res = append(res, "SECOND-"+errInfo(err))
+						break
+					}
+					c2 := append([]byte(nil), b2...)
+					if string(c1) != string(c2) {
+						res = append(res, "DIFF:"+hex.EncodeToString(c1)+":"+hex.EncodeToString(c2))
+					} else if string(b1) != string(c1) {
+						res = append(res, "FIRST-RESULT-CHANGED:"+hex.EncodeToString(c1)+":"+hex.EncodeToString(b1))
+					} else {
+						res = append(res, "same")
+					}
 				case "len":
 					n, err := root.Len()
 					if err != nil {
